@@ -10,7 +10,7 @@ namespace vf {
 static const double POISON = 1e10;
 
 void check_C04(Src &s, Ctx &ctx) {
-    SpecOpts so; so.min_outs = 1; so.max_outs = 3; so.cap = cfg().tier ? 800 : 250;
+    SpecOpts so; so.min_outs = 1; so.max_outs = 3; so.cap = cfg().tier ? 350 : 250;
     GridState st; st.cap = so.cap; st.ctx = &ctx;
     st.spec = decode_spec(s, so); st.vm.decode(s);
     make_grid(st.g, st.spec, so.cap);
